@@ -209,9 +209,10 @@ NoLoc == [some |-> FALSE, f |-> 0, p |-> <<>>, part |-> "", rule |-> "", cls |->
 Loc(f, p, part, rule, cls) == [some |-> TRUE, f |-> f, p |-> p, part |-> part, rule |-> rule, cls |-> cls]
 \*  part: "line" (a key / include line), "open" (the header line of a section), "close" (its `}` line)
 \*  rule: "at"    the error names exactly that line
-\*        "from"  (a missing brace: it can only be noticed later) that line or any later one of the same file
+\*        "from"  (a missing brace: where, and which section is the unclosed one, cannot be known) any line of that file
 \*        "none"  (the `server {` line itself is damaged: the file has no server section; no line is required)
-\*        "any"   (a number no 64-bit integer holds) rejected, by the parser or by validation, no line required
+\*        "any"   (a number no 64-bit integer holds; an included file that does not exist) rejected, by the parser or by
+\*                validation, no line required
 
 HostPatOK(p) == IsStrLit(p) \/ IndexOf(p, QUOTE) = 0
 
@@ -230,7 +231,7 @@ FirstFault(f, es, i, pre, files) ==
              ELSE IF e.t = "inc" THEN
                 (IF e.v = "" THEN Loc(f, p, "line", "at", "missing-value")
                  ELSE IF ~IsStrLit(e.v) THEN Loc(f, p, "line", "at", "bad-include")
-                 ELSE IF e.f = 0 \/ StrBody(e.v) # "@" THEN Loc(f, p, "line", "at", "no-such-file")   \* `include ""`, `include """`
+                 ELSE IF e.f = 0 \/ StrBody(e.v) # "@" THEN Loc(f, p, "line", "any", "no-such-file")   \* not a syntax error: rejected, somehow   \* `include ""`, `include """`
                  ELSE FirstFault(e.f, files[e.f], 1, <<>>, files))
              ELSE
                 (IF e.ob # "{" THEN Loc(f, p, "open", IF e.ob = "" THEN "from" ELSE "at", "open-brace")
@@ -494,7 +495,7 @@ Faults(ast) ==
 
 \* the classes whose mutants violate the *syntax*: Meaning must point at the damaged token
 SyntaxClasses == {"MissingCloseBrace", "MissingOpenBrace", "MissingValue", "BadNumber", "UnknownUnit",
-                  "UnterminatedQuote", "NoSuchInclude", "BadBool", "LoneQuote", "BlankValue", "ValueOnNextLine"}
+                  "UnterminatedQuote", "BadBool", "LoneQuote", "BlankValue", "ValueOnNextLine"}
 \* the classes whose mutants break a validation rule
 RuleClasses == {"OutOfRange", "BadEnum", "RouteWithoutType", "NoBlacklistFile", "BadIp"}
 
@@ -806,7 +807,7 @@ Agree(r, m, fl) ==
           \/ /\ r.f = m.loc.f
              /\ LET at == LineOf(fl, m.loc.f, m.loc.p, m.loc.part) IN
                 IF m.loc.rule = "at" THEN r.line = at
-                ELSE r.line >= at /\ r.line <= Len(fl[m.loc.f]) + 2
+                ELSE r.line >= 1 /\ r.line <= Len(fl[m.loc.f]) + 2
 \* loads into exactly what the file describes, or is rejected where it is wrong ...
 Conforms == (phase = "done") => Agree(res, Meaning(ast), files)
 \* ... never by crashing ...
